@@ -335,3 +335,58 @@ PROPS["C14"] = {
     "explanation": "merge:hard-coded-children-first-external-configuration-overrides, child:* clauses, writes-only-its-own-config-argument-and-dictionaries-it-allocated, "
                    "default-name-remapped-only-while-starting, never-writes-the-callers-config",
 }
+
+
+PROPS["C15"] = {
+    "functions": ["_runner._run_application_async", "_context.start_service_task", "_context.Context.__aexit__",
+                  "_context.Context._run_teardown_callbacks", "_context.Context.__aenter__", "lemma:frame"],
+    "trusted": COMP_TRUSTED + LIFE_TRUSTED + [
+        "start_component contract (verified under C05/C07/C14)", "Context.start_service_task contract (verified under C08)",
+        "A-SIG0 the signal handler task cannot cancel the startup scope before start_service_task() has returned",
+        "A-PURE-EXT platform.system / functools.partial / get_cancelled_exc_class are pure", "A-CS CancelScope", "A-EV anyio.Event",
+        "anyio.run returns the coroutine's result / propagates its exception; sys.exit(n) raises SystemExit(n) (run_application's last statement, bounded harness)"],
+    "assumptions": COMP_ASSUME + [
+        "handle_signals (open_signal_receiver loop) and run_application (logging setup, anyio.run, sys.exit) are covered by the bounded harness only",
+        "reading a local variable that was never bound is not modelled (UnboundLocalError); excluded here by A-SIG0"],
+    "undecided": ["signals: delivery and the handler task are outside the deductive reach (bounded harness)"],
+    "level": "other",
+    "level_text": "Partly proved, partly bounded. Proved on the real body of _run_application_async, all paths: one root context is entered, the signal "
+                  "handler service task is started inside it before start_component(component_class, config, timeout=start_timeout); once the root context is "
+                  "entered every way out (return or exception) goes through its __aexit__ and nothing else happens afterwards - and __aexit__ / "
+                  "_run_teardown_callbacks are verified (C01/C13) to run every registered teardown callback exactly once in reverse order; the status is 1 when "
+                  "startup raised (any BaseException, TimeoutError, cancellation), for a CLI component None -> 0, an int (bool included) in 0..127 -> itself, "
+                  "everything else -> 1, a run() exception reaches the root context's exit unchanged and propagates; a non-CLI application returns 0 and only "
+                  "after the shutdown event was set. Bounded (harness, 1000/25000 scenarios in worker processes): signals, run_application's "
+                  "SystemExit mapping, service-task crashes, both backends.",
+    "level_note": "Not counted as proved: signal handling, run_application wrapper (bounded).",
+    "design_ref": "DESIGN.md section 5 (C15)",
+    "technique": "contract-based deductive verification of _run_application_async (pyvc + z3) over the verified contracts of Context.__aexit__/_run_teardown_callbacks/start_component + bounded harness running real applications",
+    "explanation": "root-context-left-through-aexit-after-everything-else, cli-status:None->0,int-in-0..127->itself,anything-else->1, "
+                   "startup-failure-timeout-or-cancellation-gives-status-1, non-CLI:returns-0-only-after-the-shutdown-event",
+}
+PROPS["C19"] = {
+    "functions": ["_context.inject.resolve_resources", "_context.inject.resolve_resources_async", "_context.inject.resolve_forward_refs",
+                  "_context.Context.get_resource_nowait", "_context.Context.get_resource", "_context.current_context", "lemma:frame"],
+    "clauses": lambda q, o: q.startswith("_context.inject") or q.startswith("lemma") or q.endswith("current_context") or any(
+        t in o["id"] for t in ("canary", "ResourceNotFound", "never-raises-on-a-hit", "optional", "returns", "result")),
+    "trusted": CTX_TRUSTED + ["A-INJ the closure cells of one inject() activation are referenced only by its own closures (census)",
+                              "A-TYPING get_type_hints / get_origin / get_args are side-effect free",
+                              "lemma:frame (proved every run)"],
+    "assumptions": CTX_ASSUME + [
+        "the wrappers sync_wrapper / async_wrapper (func(*args, **kwargs, **resolve_resources())) and the decoration-time scan of the signature "
+        "(inspect.signature, Parameter kinds) are covered by the bounded harness only",
+        "which class an annotation denotes (typing introspection) is trusted; the marker's cls/optional fields are what resolve_forward_refs stored"],
+    "undecided": ["decoration-time rejections (positional-only / unannotated / uncalled resource) - bounded harness"],
+    "level": "other",
+    "level_text": "Partly proved, partly bounded. Proved on the real closures: resolve_resources / resolve_resources_async resolve forward references first iff "
+                  "not yet resolved, then perform for every marker of the decorated function exactly one lookup - get_resource_nowait resp. get_resource - in "
+                  "the context current at call time with (marker.cls, marker.name) and optional=True iff the marker is optional, store that lookup's result "
+                  "under the parameter's name in a private dict and return a dict with exactly the markers' parameter names; any exception of a lookup "
+                  "(ResourceNotFound for a missing non-optional resource) propagates before the wrapper can call the function; resolve_forward_refs sets "
+                  "the resolved flag only when resolution completed. The lookup contracts themselves are C03/C04. Bounded: wrappers, decoration-time checks.",
+    "level_note": "Not counted as proved: sync_wrapper/async_wrapper argument passing, signature scan (bounded harness: 2204/42072 scenarios).",
+    "design_ref": "DESIGN.md section 5 (C19)",
+    "technique": "contract-based deductive verification of inject()'s resolver closures (pyvc + z3) over the verified lookup contracts + bounded differential harness",
+    "explanation": "lookup:in-the-context-current-at-call-time, lookup:annotated-type-and-marker-name, lookup:optional-iff-the-marker-is-optional, "
+                   "stores-this-lookups-result-under-this-parameter-name, returns-one-entry-per-marker, flag-unchanged-when-resolution-fails",
+}
